@@ -90,13 +90,18 @@ def check_legs(ctx, sc):
     rec = sc['recs'][:1]
     pm = r_m.collect_energy_receiver_patchwise(scenes.coords(rec)).time[0]
     p0 = r_0.collect_energy_receiver_patchwise(scenes.coords(rec)).time[0]
-    dm, nb = r_m.calculate_direct_sound(scenes.coords(rec))
-    rr = float(np.linalg.norm(rec[0] - sc['src']))
-    for b in range(sc['B']):
-        ref = np.exp(-sc['att'][b] * rr) / (4 * np.pi * rr ** 2)
-        if abs(dm[0, b] - ref) > 1e-12 * ref:
-            ctx.violation('direct-sound-attenuation', 'direct sound is not exp(-m r)/(4 pi r^2)', energy.scene_input(sc), float(dm[0, b]), ref)
-            return
+    # the direct sound of ALL receivers of the scene in one call (several receivers x several bands)
+    recs_all = np.asarray(sc['recs'])
+    dm, nb = r_m.calculate_direct_sound(scenes.coords(recs_all))
+    dm = np.asarray(dm)
+    for k in range(len(recs_all)):
+        rr = float(np.linalg.norm(recs_all[k] - sc['src']))
+        for b in range(sc['B']):
+            ref = np.exp(-sc['att'][b] * rr) / (4 * np.pi * rr ** 2)
+            if abs(dm[k, b] - ref) > 1e-12 * ref:
+                ctx.violation('direct-sound-attenuation', 'direct sound of receiver %d (of %d), band %d is not exp(-m r)/(4 pi r^2)' % (k, len(recs_all), b),
+                              energy.scene_input(sc), float(dm[k, b]), ref)
+                return
     ctx.oracle_evals += 3
     # the coefficient in force is the LAST one set: the object that ran with m is given 2m and every
     # stage is run again (same source) - every leg must carry 2m, as on the fresh object r_2m
